@@ -103,3 +103,249 @@ package zerolog
 //@     invariant (err == nil) == (forall k in 0..rangeindex+1: callres(LevelWriter.WriteLevel, old(ncalls(LevelWriter.WriteLevel)) + k, 1) == nil && callres(LevelWriter.WriteLevel, old(ncalls(LevelWriter.WriteLevel)) + k, 0) == len(p))
 //@     invariant err != nil ==> exists j in 0..rangeindex+1: (forall k in 0..j: callres(LevelWriter.WriteLevel, old(ncalls(LevelWriter.WriteLevel)) + k, 1) == nil && callres(LevelWriter.WriteLevel, old(ncalls(LevelWriter.WriteLevel)) + k, 0) == len(p)) && (callres(LevelWriter.WriteLevel, old(ncalls(LevelWriter.WriteLevel)) + j, 1) != nil ==> err == callres(LevelWriter.WriteLevel, old(ncalls(LevelWriter.WriteLevel)) + j, 1)) && (callres(LevelWriter.WriteLevel, old(ncalls(LevelWriter.WriteLevel)) + j, 1) == nil ==> callres(LevelWriter.WriteLevel, old(ncalls(LevelWriter.WriteLevel)) + j, 0) != len(p) && err == io.ErrShortWrite)
 //@     decreases len(t.writers) - (rangeindex + 1)
+
+// ---------------------------------------------------------------------------
+// Buffers (ghost vocabulary: see internal/json/zz_contracts_verif.go)
+
+//@ spec listbuf(b bytes) bool = lex(b) == 0 && stk(b) == STK_EMPTY && ((len(b) == 0 && mode(b) == TOP) || (len(b) > 0 && (mode(b) == DONE || mode(b) == LIST_NEXT)))
+//@ spec eventbuf(b bytes) bool = objbuf(b) && stk(b) == STK_OBJ
+//@ spec ctxbuf(b bytes) bool = objbuf(b) && stk(b) == STK_OBJ && ((len(b) > 1) == (mode(b) == OBJ_NEXT))
+
+// Configuration the properties take as given (C01: time layouts without quote,
+// backslash or control characters; marshal functions present).
+//@ config cleanlayout(TimeFieldFormat)
+//@ config LevelFieldMarshalFunc != nil && ErrorMarshalFunc != nil && TimestampFunc != nil && CallerMarshalFunc != nil && InterfaceMarshalFunc != nil
+//@ config DurationFieldUnit != 0
+
+//@ pool eventPool *Event
+//@ pool arrayPool *Array
+
+//@ track putEvent, putArray, Event.write, Event.done, ErrorHandler, Hook.Run, Logger.should, done, newEvent
+
+// ---------------------------------------------------------------------------
+// event.go: life cycle
+
+//@ func putEvent(e)
+//@   props C06 C07
+//@   arith int
+//@   requires e != nil
+
+//@ func newEvent(w, level) res
+//@   props C01 C03 C05 C06
+//@   arith int
+//@   ensures res != nil
+//@   ensures lex(res.buf) == 0 && mode(res.buf) == OBJ_FIRST && stk(res.buf) == STK_OBJ && len(res.buf) == 1 && res.buf[0] == '{'
+//@   ensures [C03,C05] res.w == w && res.level == level && res.stack == false && res.skipFrame == 0 && len(res.ch) == 0
+
+//@ func Dict() res
+//@   props C01 C05
+//@   arith int
+//@   ensures res != nil && eventbuf(res.buf) && mode(res.buf) == OBJ_FIRST
+
+//@ func (*Event).write(e) err
+//@   props C01 C03 C04 C06 C14
+//@   arith int
+//@   requires e != nil ==> eventbuf(e.buf)
+//@   ensures e == nil ==> err == nil && ncalls(LevelWriter.WriteLevel) == old(ncalls(LevelWriter.WriteLevel)) && ncalls(putEvent) == old(ncalls(putEvent))
+//@   ensures [C03,C04] e != nil && old(e.level) != Disabled && old(e.w) != nil ==> ncalls(LevelWriter.WriteLevel) == old(ncalls(LevelWriter.WriteLevel)) + 1 && callarg(LevelWriter.WriteLevel, old(ncalls(LevelWriter.WriteLevel)), 0) == old(e.w) && callarg(LevelWriter.WriteLevel, old(ncalls(LevelWriter.WriteLevel)), 1) == old(e.level) && err == callres(LevelWriter.WriteLevel, old(ncalls(LevelWriter.WriteLevel)), 1)
+//@   ensures [C01,C03] e != nil && old(e.level) != Disabled && old(e.w) != nil ==> lex(callarg(LevelWriter.WriteLevel, old(ncalls(LevelWriter.WriteLevel)), 2)) == 0 && mode(callarg(LevelWriter.WriteLevel, old(ncalls(LevelWriter.WriteLevel)), 2)) == DONE_NL && stk(callarg(LevelWriter.WriteLevel, old(ncalls(LevelWriter.WriteLevel)), 2)) == STK_EMPTY && prefix(callarg(LevelWriter.WriteLevel, old(ncalls(LevelWriter.WriteLevel)), 2), old(e.buf)) && len(callarg(LevelWriter.WriteLevel, old(ncalls(LevelWriter.WriteLevel)), 2)) == len(old(e.buf)) + 2
+//@   ensures [C03,C04] e != nil && (old(e.level) == Disabled || old(e.w) == nil) ==> ncalls(LevelWriter.WriteLevel) == old(ncalls(LevelWriter.WriteLevel)) && err == nil
+//@   ensures [C06,C14] e != nil ==> ncalls(putEvent) == old(ncalls(putEvent)) + 1 && callarg(putEvent, old(ncalls(putEvent)), 0) == e
+//@   ensures e != nil ==> e.level == old(e.level)
+
+//@ iface Hook.Run(h, e, level, message)
+//@   modifies e.buf, e.level, e.stack, e.skipFrame, e.ctx
+//@   requires e != nil && eventbuf(e.buf)
+//@   ensures eventbuf(e.buf) && prefix(e.buf, old(e.buf))
+
+//@ func (*Event).msg(e, msg)
+//@   props C01 C03 C14
+//@   arith int
+//@   requires e != nil && eventbuf(e.buf) && (forall k in 0..len(e.ch): e.ch[k] != nil)
+//@   ensures [C03] ncalls(Hook.Run) == old(ncalls(Hook.Run)) + len(old(e.ch))
+//@   ensures [C03] forall k in 0..len(old(e.ch)): callarg(Hook.Run, old(ncalls(Hook.Run)) + k, 0) == old(e.ch)[k] && callarg(Hook.Run, old(ncalls(Hook.Run)) + k, 1) == e && same(callarg(Hook.Run, old(ncalls(Hook.Run)) + k, 3), msg)
+//@   ensures [C03,C14] ncalls(Event.write) == old(ncalls(Event.write)) + 1 && callarg(Event.write, old(ncalls(Event.write)), 0) == e
+//@   ensures [C03] ncalls(LevelWriter.WriteLevel) == old(ncalls(LevelWriter.WriteLevel)) + ite(e.level != Disabled && old(e.w) != nil, 1, 0)
+//@   ensures [C14] callres(Event.write, old(ncalls(Event.write)), 0) != nil && ErrorHandler != nil ==> ncalls(ErrorHandler) == old(ncalls(ErrorHandler)) + 1 && callarg(ErrorHandler, old(ncalls(ErrorHandler)), 0) == callres(Event.write, old(ncalls(Event.write)), 0)
+//@   ensures [C14] callres(Event.write, old(ncalls(Event.write)), 0) == nil ==> ncalls(ErrorHandler) == old(ncalls(ErrorHandler))
+//@   ensures [C03] ncalls(Event.done) == old(ncalls(Event.done)) + ite(old(e.done) != nil, 1, 0)
+//@   loop 1:
+//@     invariant 0 <= rangeindex + 1 && rangeindex + 1 <= len(old(e.ch))
+//@     invariant eventbuf(e.buf) && e.w == old(e.w) && e.done == old(e.done)
+//@     invariant ncalls(Hook.Run) == old(ncalls(Hook.Run)) + rangeindex + 1
+//@     invariant forall k in 0..rangeindex+1: callarg(Hook.Run, old(ncalls(Hook.Run)) + k, 0) == old(e.ch)[k] && callarg(Hook.Run, old(ncalls(Hook.Run)) + k, 1) == e && same(callarg(Hook.Run, old(ncalls(Hook.Run)) + k, 3), msg)
+//@     invariant ncalls(Event.write) == old(ncalls(Event.write)) && ncalls(LevelWriter.WriteLevel) == old(ncalls(LevelWriter.WriteLevel)) && ncalls(ErrorHandler) == old(ncalls(ErrorHandler)) && ncalls(Event.done) == old(ncalls(Event.done))
+
+//@ func (*Event).Discard(e) res
+//@   props C03 C04
+//@   arith int
+//@   ensures res == nil
+//@   ensures e != nil ==> e.level == Disabled
+
+// ---------------------------------------------------------------------------
+// Marshaler interfaces and callbacks: assumed for user implementations (they
+// can only use the exported Event/Array methods, whose contracts give exactly
+// this), proved for zerolog's own implementations.
+
+//@ iface LogObjectMarshaler.MarshalZerologObject(m, e)
+//@   modifies e.buf, e.level, e.stack, e.skipFrame, e.ctx
+//@   requires e != nil && objbuf(e.buf)
+//@   ensures objbuf(e.buf) && stk(e.buf) == old(stk(e.buf)) && prefix(e.buf, old(e.buf))
+
+//@ iface LogArrayMarshaler.MarshalZerologArray(m, a)
+//@   modifies a.buf
+//@   requires a != nil && listbuf(a.buf)
+//@   ensures listbuf(a.buf) && prefix(a.buf, old(a.buf))
+
+//@ dyn param:f(e)
+//@   modifies e.buf, e.level, e.stack, e.skipFrame, e.ctx
+//@   requires e != nil && objbuf(e.buf)
+//@   ensures objbuf(e.buf) && stk(e.buf) == old(stk(e.buf)) && prefix(e.buf, old(e.buf))
+
+// ---------------------------------------------------------------------------
+// encoder_json.go
+
+//@ func appendJSON(dst, j) res
+//@   props C01 C02
+//@   arith int
+//@   flag tags !binary_log
+//@   requires valueok(dst) && wholevalue(j)
+//@   ensures emitsvalue(res, dst)
+
+//@ func appendCBOR(dst, cbor) res
+//@   props C01 C02
+//@   arith int
+//@   flag tags !binary_log
+//@   flag noovf
+//@   flag assumepost base64.StdEncoding.Encode writes exactly EncodedLen(len(cbor)) alphabet bytes over the placeholder dots, so the result is the quoted data URL (trusted library step)
+//@   requires valueok(dst)
+//@   ensures emitsvalue(res, dst)
+
+// ---------------------------------------------------------------------------
+// event.go / array.go: structured members
+
+//@ func (*Event).appendObject(e, obj)
+//@   props C01 C03
+//@   arith int
+//@   requires e != nil && obj != nil && valueok(e.buf)
+//@   ensures lex(e.buf) == 0 && mode(e.buf) == aftervalue(old(mode(e.buf))) && stk(e.buf) == old(stk(e.buf)) && len(e.buf) > old(len(e.buf)) && e.buf[len(e.buf)-1] != '{' && prefix(e.buf, old(e.buf))
+
+//@ func (*Event).Dict(e, key, dict) res
+//@   flag frontend
+//@   requires e != nil ==> dict != nil && dict != e && eventbuf(dict.buf)
+
+//@ func (Context).Dict(c, key, dict) res
+//@   flag frontend
+//@   requires dict != nil && eventbuf(dict.buf)
+
+//@ func (*Array).Dict(a, dict) res
+//@   flag frontend
+//@   requires dict != nil && eventbuf(dict.buf)
+
+//@ func Arr() res
+//@   props C01 C05
+//@   arith int
+//@   ensures res != nil && listbuf(res.buf) && len(res.buf) == 0
+
+//@ func putArray(a)
+//@   props C06 C07
+//@   arith int
+//@   requires a != nil
+
+//@ func (*Array).write(a, dst) res
+//@   props C01 C03
+//@   arith int
+//@   requires a != nil && listbuf(a.buf) && valueok(dst)
+//@   ensures emitsvalue(res, dst)
+
+//@ func (*Array).MarshalZerologArray(a, b)
+//@   props C01
+//@   arith int
+//@   modifies nothing
+
+//@ func (*Event).Array(e, key, arr) res
+//@   flag frontend
+//@   requires e != nil ==> arr != nil && (typeis(arr, "*Array") ==> dyn(arr, "*Array") != nil && listbuf(dyn(arr, "*Array").buf))
+
+//@ func (Context).Array(c, key, arr) res
+//@   flag frontend
+//@   requires arr != nil && (typeis(arr, "*Array") ==> dyn(arr, "*Array") != nil && listbuf(dyn(arr, "*Array").buf))
+
+//@ func (*Event).Object(e, key, obj) res
+//@   flag frontend
+
+//@ func (*Event).RawJSON(e, key, b) res
+//@   flag frontend
+//@   requires wholevalue(b)
+
+//@ func (Context).RawJSON(c, key, b) res
+//@   flag frontend
+//@   requires wholevalue(b)
+
+//@ func (*Array).RawJSON(a, val) res
+//@   flag frontend
+//@   requires wholevalue(val)
+
+//@ func (*Event).AnErr(e, key, err) res
+//@   flag frontend loose
+
+//@ func (Context).AnErr(c, key, err) res
+//@   flag frontend loose
+
+//@ func (*Event).caller(e, skip) res
+//@   props C01 C19
+//@   arith int
+//@   flag noovf
+//@   requires e != nil ==> objbuf(e.buf)
+//@   ensures e != nil ==> objbuf(e.buf) && stk(e.buf) == old(stk(e.buf)) && prefix(e.buf, old(e.buf))
+//@   ensures res == e
+
+//@ func appendFields(dst, fields, stack) res
+//@   props C01 C02
+//@   arith int
+//@   flag noovf
+//@   requires objbuf(dst)
+//@   ensures objbuf(res) && stk(res) == stk(dst) && prefix(res, dst)
+//@   ensures same(res, dst) || (mode(res) == OBJ_NEXT && len(res) > len(dst))
+
+//@ func (*Array).Object(a, obj) res
+//@   flag frontend
+//@   requires obj != nil
+
+//@ func (*Event).Func(e, f) res
+//@   flag frontend
+//@   requires f != nil
+
+//@ func (*Event).Errs(e, key, errs) res
+//@   flag frontend
+//@   loop 1:
+//@     invariant 0 <= rangeindex + 1 && rangeindex + 1 <= len(errs)
+//@     invariant arr != nil && listbuf(arr.buf) && objbuf(e.buf) && same(e.buf, old(e.buf))
+
+//@ func (Context).Errs(c, key, errs) res
+//@   flag frontend
+//@   loop 1:
+//@     invariant 0 <= rangeindex + 1 && rangeindex + 1 <= len(errs)
+//@     invariant arr != nil && listbuf(arr.buf)
+
+//@ func (Context).Reset(c) res
+//@   props C01 C05
+//@   arith int
+//@   ensures ctxbuf(res.l.context) && mode(res.l.context) == OBJ_FIRST && fresh(res.l.context)
+
+// ---------------------------------------------------------------------------
+// log.go: derivation
+
+//@ func (Logger).Hook(l, hooks) res
+//@   props C03 C05
+//@   arith int
+//@   ensures same(res.context, l.context) && res.w == l.w && res.level == l.level && res.sampler == l.sampler && res.stack == l.stack && res.ctx == l.ctx
+//@   ensures [C03] len(res.hooks) == len(l.hooks) + len(hooks)
+//@   ensures [C03] forall k in 0..len(l.hooks): res.hooks[k] == l.hooks[k]
+//@   ensures [C03] forall k in 0..len(hooks): res.hooks[len(l.hooks)+k] == hooks[k]
+//@   ensures [C05] len(hooks) > 0 ==> fresh(res.hooks)
+//@   ensures [C05] len(hooks) == 0 ==> same(res.hooks, l.hooks)
+
+//@ func (Context).EmbedObject(c, obj) res
+//@   flag frontend
+//@   flag replay context_embed
